@@ -385,6 +385,10 @@ func runC17(c *wk.Ctx) {
 			c17NarrowFields(c)
 			return
 		}
+		if idx == 19 {
+			c17ForeignRefs(c)
+			return
+		}
 		if idx%5 == 4 {
 			c17StructCase(c, r, idx)
 			return
